@@ -286,3 +286,52 @@ def s_is_int_list(ex, args, kwargs, st, node):
 
 
 SYMBOLIC.update({"is_str_list": s_is_str_list, "is_int_list": s_is_int_list})
+
+
+# ---- registry coverage (C11) ---------------------------------------------------------------------------------------
+def forall_key_codes_in(registry, codes):
+    """every code of every client entry of `registry` occurs in the list `codes`"""
+    return all(c in codes for v in registry.values() if isinstance(v, list) for c in v)
+
+
+def s_forall_key_codes_in(ex, args, kwargs, st, node):
+    from .sym import ISetS
+    reg = ex.need(ex.as_val(args[0], st, node), "d", st, node)
+    res = ex.need(ex.as_val(args[1], st, node), "l", st, node)
+    S = z3.Function("py.iset_of_list", ListS, ISetS)
+    k = z3.Const("k!fk", StrS)
+    v = z3.Select(reg, k)
+    return VBool(z3.ForAll([k], z3.Implies(recog("l")(v), z3.IsSubset(S(acc("l")(v)), S(res)))))
+
+
+def values_prefix_in_set(registry, n, s):
+    """every code of the first n entries (in key order) of `registry` is in the set s"""
+    vals = list(registry.values())[:n]
+    return all(c in s for v in vals if isinstance(v, list) for c in v)
+
+
+def s_values_prefix_in_set(ex, args, kwargs, st, node):
+    from .sym import ISetS
+    reg = ex.need(ex.as_val(args[0], st, node), "d", st, node)
+    n = ex.need_int(ex.as_val(args[1], st, node), st, node)
+    sv = ex.as_val(args[2], st, node)
+    S = z3.Function("py.iset_of_list", ListS, ISetS)
+    ks = z3.Function("py.keys", DictS, ListS)(reg)
+    j = z3.Const("j!vp", z3.IntSort())
+    v = z3.Select(reg, acc("s")(ks[j]))
+    return VBool(z3.ForAll([j], z3.Implies(z3.And(0 <= j, j < n, recog("l")(v)), z3.IsSubset(S(acc("l")(v)), sv.payload("sti")))))
+
+
+def int_lists_dict(registry):
+    return all(isinstance(v, list) and all(isinstance(c, int) and not isinstance(c, bool) for c in v) for v in registry.values())
+
+
+def s_int_lists_dict(ex, args, kwargs, st, node):
+    reg = ex.need(ex.as_val(args[0], st, node), "d", st, node)
+    k = z3.Const("k!il", StrS)
+    m = z3.Const("m!il", z3.IntSort())
+    v = z3.Select(reg, k)
+    return VBool(z3.ForAll([k, m], z3.Implies(v != ABSENT, z3.And(recog("l")(v), z3.Implies(z3.And(0 <= m, m < z3.Length(acc("l")(v))), recog("i")(acc("l")(v)[m]))))))
+
+
+SYMBOLIC.update({"forall_key_codes_in": s_forall_key_codes_in, "values_prefix_in_set": s_values_prefix_in_set, "int_lists_dict": s_int_lists_dict})
